@@ -41,6 +41,7 @@ Open (known finding):
 import PromVerif.Lemmas.OMRtRef
 import PromVerif.Lemmas.OMRtDoc3
 import PromVerif.Lemmas.OMRtConv
+import PromVerif.Lemmas.OMRtFam2
 import PromVerif.Props.C15
 
 set_option autoImplicit false
@@ -451,5 +452,92 @@ set_option maxRecDepth 100000 in
 /-- non-vacuity: an accepted line in a spelling the exposition never writes (blank after the comma, integer value, label order) -/
 example : parseSample refP cs!"a{b=\"x\\\"y\", a=\"1\"} 17 1.5" =
     .ok ⟨cs!"a", some [(cs!"b", cs!"x\"y"), (cs!"a", cs!"1")], some (.int 17), some (.stamp 1 500000000), none, none⟩ := by decide
+
+-- the converse, full line level and document level ------------------------------------------------------------------------------------
+
+/-- **(a) the converse at line level, full**: for EVERY accepted sample line (any text `_parse_sample` accepts; it never yields a
+native histogram), rendering the parsed sample again — name, label dict (the exposition sorts by key), value through
+`repr(float(v))`, timestamp (`Timestamp.__str__` / `repr(float)`), exemplar — and parsing the rendered line gives the same sample:
+same name, same label DICT, the value as the double `float(v)`, a `Timestamp` EXACTLY as it was, a float timestamp as the same
+instant (`tsSame`: `15e0` comes back as `Timestamp(15, 0)`), the exemplar likewise (`SampleSame`).
+Derived from acceptance, not assumed: the label names are valid and unique, every `Timestamp` satisfies the class invariant,
+the exemplar's labels are valid, unique and within the 128-character limit.  Hypotheses (`BackLaws`): the number laws for the
+PARSED values — `float()` reads `floatToGoString(repr(float(v)))` as `float(v)`, `repr` of a float timestamp lies in the float
+grammar and `float()` reads it back — and no exemplar label in the metric-name slot (`# {"x"} 1` is accepted as
+`{'__name__': 'x'}`; on the real code that round-trips too, the model's `LabelsOK` does not cover it). -/
+theorem om_reparse_line (P : Params) (hI : IntLaw P.pyInt) (R : Rerender) (line : Str) (o : OSample)
+    (hacc : parseSample P line = .ok o) (hl : BackLaws P R o) :
+    ∃ o', parseSample P (lineBody (sampleBack R o)) = .ok o' ∧ SampleSame P R o o' :=
+  reparse_line P hI R line o hacc hl
+
+/-- non-vacuity of (a): the accepted line `a{b="x\"y", a="1"} 17 1.5` (spelling the exposition never writes) with `repr(float(17))` -/
+def exR : Rerender := ⟨fun _ => cs!"17.0", fun _ => 34000000004, fun _ => cs!"1.5"⟩
+def exParsed : OSample := ⟨cs!"a", some [(cs!"b", cs!"x\"y"), (cs!"a", cs!"1")], some (.int 17), some (.stamp 1 500000000), none, none⟩
+
+example : parseSample refP cs!"a{b=\"x\\\"y\", a=\"1\"} 17 1.5" = .ok exParsed := by decide
+example : BackLaws refP exR exParsed := by
+  refine ⟨?_, ?_, ?_, ?_, ?_⟩
+  · intro v _
+    exact valTok_ref cs!"17.0" 34000000004 (by decide) (by decide) (by decide) (by decide)
+  · intro b h; cases h
+  · intro e h; cases h
+  · intro e b h; cases h
+  · intro e h; cases h
+example : lineBody (sampleBack exR exParsed) = cs!"a{a=\"1\",b=\"x\\\"y\"} 17.0 1.500000000" := by
+  simp [lineBody, lineHead, lineRem, sampleBack, exParsed, exR, tsBack, OMExpo.tsStr, OMExpo.stampStr, intStr, decDigits_small,
+    decDigits_step, zpad]
+  decide
+
+/-- **(b) every family the parser returns is expressible again** — `_partial`.  From acceptance alone (`omParse_wf`): the family name
+is one `Metric()` accepts, the type is among METRIC_TYPES, a unit suffixes the name, and every float-valued sample is what
+`_parse_sample` made of some line, so that all the line-level facts of (a) hold for it.  What is NOT derived and enters through
+`BackOK`: `noNH` (the property's exception), `laws` (number laws), and four structural facts —
+* `unit` (no line feed in a unit), `eligible` (exemplars only on buckets / `_total`), `adj` (consecutive names differ): true of every
+  accepted document (a unit is a piece of one line; `chkExemplar`; `build_metric`'s seen_names), their derivation — three more
+  invariants of the line fold — is not done;
+* `regular` (sample names within the suffix set of the family's type): FALSE for a stray sample whose name is itself a quoted string
+  (finding F32, `stray_quoted_sample_counterexample`): the family gets the twice-unquoted name.
+`RuleClean` of the re-rendered families is not derived either: see (c). -/
+theorem parsed_family_expressible_partial (P : Params) (R : Rerender) (d : Str) (fs : List OFamily)
+    (hacc : omParse P d = .ok fs) (hb : BackOK P R fs) :
+    (∀ f ∈ fs, FamWf P f) ∧ Expressible P (fs.map (famBack R)) :=
+  ⟨omParse_wf P d fs hacc, famBack_ok P R fs (omParse_wf P d fs hacc) hb, hb.adj⟩
+
+/-- **(c) the converse at document level** — `_partial`: for every accepted document without native-histogram samples, exposing the
+parsed families and parsing again reproduces the same families (`FamSame`: name, help, type, unit, every sample by `SampleSame`).
+Unconditional part (`reparse_document`): `omParse (generateLatest fs') = rulesOnly …`, i.e. only the parser's rule layer on the
+re-rendered values stands between the two parses.  Exactly what is missing:
+* `hrc : RuleClean` of the re-rendered families is a hypothesis.  It is NOT a consequence of acceptance: the duplicate suppression
+  compares a `Timestamp` and a float as unequal, so `a 1 1.5` / `a 2 1.5e0` is kept as two samples and loses one after
+  re-rendering (known finding F30, `mixed_spelling_duplicate_counterexample`); the int → float change of values
+  (`1` → `1.0`) also goes through the rule layer again (number semantics, not modelled);
+* the `BackOK` fields listed at (b) (`regular` fails on F32). -/
+theorem om_reparse_document_partial (P : Params) (hI : IntLaw P.pyInt) (R : Rerender) (d : Str) (fs : List OFamily)
+    (hacc : omParse P d = .ok fs) (hb : BackOK P R fs) (hrc : RuleClean P (fs.map (famBack R))) :
+    ∃ text fs'', OMExpo.generateLatest (fs.map (famBack R)) = .ok text ∧ omParse P text = .ok fs'' ∧ Forall2 (FamSame P R) fs fs'' := by
+  obtain ⟨text, h1, h2, h3⟩ := reparse_document P hI R d fs hacc hb
+  exact ⟨text, _, h1, by rw [h2]; exact hrc, h3⟩
+
+set_option maxRecDepth 100000 in
+/-- **F32, kernel-checked**: a stray sample (no metadata) whose name is itself a quoted string: `{"\"a\""} 1`.  The family is named
+by unquoting the sample name AGAIN (`a`), the sample keeps `"a"`; exposed again, the sample no longer belongs to family `a`, opens a
+second family `a`, and `build_metric` raises "Clashing name" -/
+theorem stray_quoted_sample_counterexample :
+    omParse refP cs!"{\"\\\"a\\\"\"} 1\n# EOF\n" =
+      .ok [⟨cs!"a", [], cs!"unknown", [], [⟨cs!"\"a\"", some [], some (.int 1), none, none, none⟩]⟩] ∧
+    (allowedNames cs!"a" cs!"unknown").contains cs!"\"a\"" = false ∧
+    OMExpo.generateLatest [⟨cs!"a", [], cs!"unknown", [], [⟨cs!"\"a\"", [], cs!"1.0", none, none⟩]⟩] =
+      .ok cs!"# HELP a \n# TYPE a unknown\n{\"\\\"a\\\"\"} 1.0\n# EOF\n" ∧
+    omParse refP cs!"# HELP a \n# TYPE a unknown\n{\"\\\"a\\\"\"} 1.0\n# EOF\n" = .error .valueError := by
+  refine ⟨by decide, by decide, by decide, by decide⟩
+
+set_option maxRecDepth 100000 in
+/-- **F30, kernel-checked**: one series twice at one instant, once in `aaaa.bbbb` and once in float spelling, is kept as two samples;
+its re-exposition (both in canonical spelling) parses to ONE sample -/
+theorem mixed_spelling_duplicate_counterexample :
+    (omParse refP cs!"a 1 1.5\na 2 1.5e0\n# EOF\n").toOption.map (fun fs => fs.map (fun f => f.samples.length)) = some [2] ∧
+    (omParse refP cs!"# HELP a \n# TYPE a unknown\na 1.0 1.500000000\na 2.0 1.5\n# EOF\n").toOption.map
+      (fun fs => fs.map (fun f => f.samples.length)) = some [1] := by
+  refine ⟨by decide, by decide⟩
 
 end PromVerif.Props.C04
